@@ -530,10 +530,39 @@ func GenBig(r *lib.RNG, name string) *Case {
 		f.Pkts = append(f.Pkts, Pkt{T: t, Conv: cv, D: d, Pl: hex.EncodeToString([]byte{b}), Rep: n, Step: step})
 		c.Convs[cv].Msgs = append(c.Convs[cv].Msgs, Msg{D: d, B: hex.EncodeToString([]byte{b}), Rep: n})
 	}
+	// LONG-LIVED conversations (not in the quiet variant, whose point is that nothing is alive): one UDP flow and
+	// one TCP connection that start before phase 1, say something every 100 s during the silence, are alive at
+	// the snapshot (first packet more than the inactivity timeout before it, last packet recent) and go on in
+	// the second capture. Constant payload and sequence numbers: no random draw, the other flows stay as they were.
+	ul, tl := -1, -1
+	const tlC, tlS = uint32(0x1000), uint32(0x7000_0000)
+	tlOff := uint32(1)
+	tlSend := func(f *File, t int64, b byte) {
+		f.Pkts = append(f.Pkts, Pkt{T: t, Conv: tl, D: 0, Fl: "PA", Seq: tlC + tlOff, Ack: tlS + 1, Pl: hex.EncodeToString([]byte{b})})
+		c.Convs[tl].Msgs = append(c.Convs[tl].Msgs, Msg{D: 0, B: hex.EncodeToString([]byte{b})})
+		tlOff++
+	}
+	if !quiet {
+		tags = append(tags, "alive_longer_than_timeout_at_snapshot")
+		ul, tl = mk("udp", 1, 0, 6666, 53), mk("tcp", 2, 3, 40001, 80)
+		addRep(&big, ul, 0, t0-20, 1, 1, 0x51)
+		big.Pkts = append(big.Pkts,
+			Pkt{T: t0 - 15, Conv: tl, D: 0, Fl: "S", Seq: tlC},
+			Pkt{T: t0 - 14, Conv: tl, D: 1, Fl: "SA", Seq: tlS, Ack: tlC + 1},
+			Pkt{T: t0 - 13, Conv: tl, D: 0, Fl: "A", Seq: tlC + 1, Ack: tlS + 1})
+		tlSend(&big, t0-12, 0x61)
+	}
 	// phase 1: two flows, interleaved by timestamp, then silent for more than the inactivity timeout
 	addRep(&big, u0, 0, t0, n1, 2, 0x41)
 	addRep(&big, u1, 0, t0+1, n1, 2, 0x42)
 	t1 := t0 + int64(2*n1) + 400_000_000
+	if !quiet {
+		for k := int64(1); k <= 3; k++ {
+			ka := t0 + int64(2*n1) + k*100_000_000
+			addRep(&big, ul, int(k%2), ka, 1, 1, byte(0x51+k))
+			tlSend(&big, ka+3, byte(0x61+k))
+		}
+	}
 	// phase 2: TCP connection opens, two more flows run across the snapshot point
 	isnC, isnS := uint32(r.U64()), uint32(r.U64())
 	m1, m2, m3 := randBytes(r, 700), randBytes(r, 1200), randBytes(r, 300)
@@ -543,6 +572,10 @@ func GenBig(r *lib.RNG, name string) *Case {
 		Pkt{T: t1 + 1, Conv: tc, D: 1, Fl: "SA", Seq: isnS, Ack: isnC + 1},
 		Pkt{T: t1 + 2, Conv: tc, D: 0, Fl: "A", Seq: isnC + 1, Ack: isnS + 1},
 		Pkt{T: t1 + 3, Conv: tc, D: 0, Fl: "PA", Seq: isnC + 1, Ack: isnS + 1, Pl: hex.EncodeToString(m1)})
+	if !quiet {
+		addRep(&big, ul, 0, t1+5, 1, 1, 0x55)
+		tlSend(&big, t1+6, 0x65)
+	}
 	addRep(&big, u2, 0, t1+10, n2, 2, 0x43)
 	addRep(&big, u3, 0, t1+11, n2, 2, 0x44)
 	t2 := t1 + 10 + int64(2*n2) + 1_000_000
@@ -551,6 +584,12 @@ func GenBig(r *lib.RNG, name string) *Case {
 		Pkt{T: t2, Conv: tc, D: 1, Fl: "PA", Seq: isnS + 1, Ack: isnC + 1 + 700, Pl: hex.EncodeToString(m2)},
 		Pkt{T: t2 + 5, Conv: tc, D: 0, Fl: "PA", Seq: isnC + 1 + 700, Ack: isnS + 1 + 1200, Pl: hex.EncodeToString(m3)})
 	addRep(&small, u2, 1, t2+10, 3, 7, 0x63)
+	if !quiet {
+		addRep(&small, ul, 1, t2+20, 2, 3, 0x56)
+		tlSend(&small, t2+21, 0x66)
+		small.Pkts = append(small.Pkts, Pkt{T: t2 + 25, Conv: tl, D: 1, Fl: "PA", Seq: tlS + 1, Ack: tlC + tlOff, Pl: "7a7a"})
+		c.Convs[tl].Msgs = append(c.Convs[tl].Msgs, Msg{D: 1, B: "7a7a"})
+	}
 	nw := mk("udp", 0, 1, 5555, 53)
 	addRep(&small, nw, 0, t2+100, 2, 3, 0x45)
 	c.Files = []File{big, small}
